@@ -435,7 +435,7 @@ def run_part2(case, ob, site):
 # ------------------------------------------------------------------------------------------
 # part 3: block-level faults
 
-FAULTS = ['second_driver', 'undriven', 'undriven_register', 'undriven_output', 'unconnected', 'foreign_wire', 'duplicate_name', 'stale_by_name', 'missing_by_name',
+FAULTS = ['second_driver', 'undriven', 'undriven_register', 'undriven_output', 'reg_driven_by_gate', 'unconnected', 'foreign_wire', 'duplicate_name', 'stale_by_name', 'missing_by_name',
           'sync_mem_comb_addr', 'comb_cycle', 'isolated_ring', 'mem_cycle', 'bad_arity', 'bad_width']
 CYCLES = ('comb_cycle', 'isolated_ring', 'mem_cycle')   # detected by iteration (simulator construction), not by sanity_check alone
 
@@ -515,6 +515,19 @@ def inject(block, fault, fsite):
             if fsite >= len(cand):
                 return False
             block.logic.remove(cand[fsite])
+        elif fault == 'reg_driven_by_gate':
+            # a Register as the destination of a net that is not a next ('r') op
+            regs_ = [w for w in wires if isinstance(w, pyrtl.Register)]
+            src = [w for w in wires if isinstance(w, pyrtl.Input)]
+            if fsite >= len(regs_) or not src:
+                return False
+            r_ = regs_[fsite]
+            s_ = next((w for w in src if w.bitwidth >= r_.bitwidth), None)
+            if s_ is None:
+                return False
+            for n in [n for n in nets if n.op == 'r' and n.dests[0] is r_]:
+                block.logic.remove(n)
+            block.logic.add(LogicNet('w' if fsite % 2 == 0 else '~', None, (s_,), (r_,)))
         elif fault == 'undriven_output':
             cand = [n for n in nets if n.dests and isinstance(n.dests[0], pyrtl.Output)]
             if fsite >= len(cand):
